@@ -25,9 +25,11 @@ class L1Cost(BaseCost):
     `weight` is a hyper-parameter besides `param`: adapters that copy the cost must carry it.
     """
 
-    def __init__(self, param=None, weight=1.0):
+    def __init__(self, param=None, weight=1.0, multivariate=False):
         self.weight = weight
+        self.multivariate = multivariate  # one output column: the sum over the variables
         super().__init__(param)
+        self.evaluation_type = "multivariate" if multivariate else "univariate"
 
     def _fit(self, X, y=None):
         # C-contiguous copy: numpy's summation order depends on the memory layout, and a user cost
@@ -41,13 +43,38 @@ class L1Cost(BaseCost):
         for i, (s, e) in enumerate(zip(starts, ends)):
             seg = self.X_[s:e]
             out[i] = np.abs(seg - np.median(seg, axis=0)).sum(axis=0)
-        return self.weight * out
+        out = self.weight * out
+        return out.sum(axis=1, keepdims=True) if self.multivariate else out
 
     def _evaluate_fixed_param(self, starts, ends):
         out = np.zeros((len(starts), self.X_.shape[1]))
         for i, (s, e) in enumerate(zip(starts, ends)):
             out[i] = np.abs(self.X_[s:e] - self.param).sum(axis=0)
-        return self.weight * out
+        out = self.weight * out
+        return out.sum(axis=1, keepdims=True) if self.multivariate else out
+
+
+class LazySSECost(BaseCost):
+    """Sum of squared deviations from the segment mean per column, computed directly from the rows
+    (optimal-parameter mode only; satisfies the split inequality like every optimal-parameter cost).
+
+    A *minimal* user cost: it does not override `_fit` and reads the data from the documented
+    attribute `_X` ("the input data used for fitting") at evaluation time, as the repository's own
+    test doubles do.  Anything that bypasses the public `fit` of a cost shows here.
+    """
+
+    def __init__(self, param=None):
+        super().__init__(param)
+
+    def _evaluate_optim_param(self, starts, ends):
+        X = np.ascontiguousarray(as_2d_array(self._X), dtype=float)
+        out = np.zeros((len(starts), X.shape[1]))
+        for i, (s, e) in enumerate(zip(starts, ends)):
+            out[i] = ((X[s:e] - X[s:e].mean(axis=0)) ** 2).sum(axis=0)
+        return out
+
+    def _evaluate_fixed_param(self, starts, ends):
+        raise NotImplementedError("LazySSECost has no fixed-parameter mode")
 
 
 class ModeCost(BaseCost):
@@ -94,12 +121,14 @@ class ClosureTableCost(BaseCost):
     The table depends on (seed, n, column) only, not on the data values.
     """
 
-    def __init__(self, seed=0, maxinc=3, zero_prob=0.5, param=None, offset=0):
+    def __init__(self, seed=0, maxinc=3, zero_prob=0.5, param=None, offset=0, multivariate=False):
         self.seed = seed
         self.maxinc = maxinc
         self.zero_prob = zero_prob
         self.offset = offset  # subtracting offset*(e-s) keeps the split inequality, makes costs negative
+        self.multivariate = multivariate  # declared multivariate: ONE output column (sum of the tables)
         super().__init__(param)
+        self.evaluation_type = "multivariate" if multivariate else "univariate"
 
     def _fit(self, X, y=None):
         X = as_2d_array(X)
@@ -114,7 +143,8 @@ class ClosureTableCost(BaseCost):
 
     def _evaluate_optim_param(self, starts, ends):
         vals = np.column_stack([T[starts, ends] for T in self.tables_]).astype(float)
-        return vals - self.offset * (ends - starts).reshape(-1, 1)
+        vals = vals - self.offset * (ends - starts).reshape(-1, 1)
+        return vals.sum(axis=1, keepdims=True) if self.multivariate else vals
 
 
 def _closure_saving_table(n, rng, maxval, zero_prob):
